@@ -17,7 +17,7 @@ Definition plain_matched (st : state) (q : query) : res (list lrow) :=
 (* the same collection with another set of secondary indexes *)
 Definition with_indexes (st : state) (ixs : list index) : state :=
   let sch := st_sch st in
-  mkst (mksch (s_id sch) (s_fields sch) ixs (s_next sch) (s_fl sch)) (st_docs st).
+  mkst (mksch (s_id sch) (s_fields sch) ixs (s_next sch) (s_nz sch)) (st_docs st).
 
 (* every converted constant can be a key bound (not a negative zero when the key encoder keeps the
    sign of zero, no string longer than the column), and no row holds a negative zero in that case *)
@@ -148,20 +148,16 @@ Proof.
   - intros -> ->. reflexivity.
 Qed.
 
+(* the stored row of every live document is the conversion of its payload under the CURRENT
+   schema: every typed field that the payload holds converted successfully and its column holds the
+   result; a field the payload lacks has a NULL column.  (False for a document written before a
+   field was added: AddField does not back-fill.) *)
 Definition rows_agree (st : state) : Prop :=
   forall r f, In r (live_rows st) -> In f (s_fields (st_sch st)) ->
-    row_get (l_row r) (f_col f) =
-      match doc_field (l_doc r) (f_name f) with
-      | Some v => match conv_field (s_strict (st_sch st)) (f_type f) v with Ok c => c | _ => CNull end
-      | None => CNull
-      end.
-Definition ints_exact_rows (st : state) : Prop :=
-  forall r f n, In r (live_rows st) -> In f (s_fields (st_sch st)) -> f_type f = TInt ->
-    doc_field (l_doc r) (f_name f) = Some (JNum n) -> int_exact n.
-Definition ints_exact_query (sch : schema) (q : query) : Prop :=
-  forall g c f n, In g (q_groups q) -> In c g ->
-    bytes_eqb (c_field c) (s_id sch) = false ->
-    find_field sch (c_field c) = Some f -> f_type f = TInt -> c_val c = JNum n -> int_exact n.
+    match doc_field (l_doc r) (f_name f) with
+    | Some v => conv_field (f_type f) v = Ok (row_get (l_row r) (f_col f))
+    | None => row_get (l_row r) (f_col f) = CNull
+    end.
 
 Lemma find_field_in sch name f : find_field sch name = Some f -> In f (s_fields sch) /\ f_name f = name.
 Proof.
@@ -169,30 +165,50 @@ Proof.
   apply bytes_eqb_eq; auto.
 Qed.
 
-Lemma spec_conv_not_int b t v : t <> TInt -> spec_conv t v = conv_field b t v.
+Lemma spec_conv_not_int t v : t <> TInt -> spec_conv t v = conv_field t v.
 Proof. destruct t; try congruence; destruct v; reflexivity. Qed.
-Lemma spec_conv_int_nonnum b v : (forall n, v <> JNum n) -> spec_conv TInt v = conv_field b TInt v.
-Proof. destruct v; intros H; try reflexivity. exfalso; eapply H; eauto. Qed.
+
+(* engine conversion c / payload conversion c' of one JSON value for a column of type t *)
+Lemma conv_rel t v :
+  match conv_field t v, spec_conv t v with
+  | Ok c, Ok c' => vrel (match t with TInt => true | _ => false end) c c'
+  | Err e, Err e' => e = e'
+  | Panic, Panic => True
+  | _, _ => False
+  end.
+Proof.
+  destruct t.
+  - destruct v as [| |n| | |]; simpl; auto.
+    destruct (int_exactb n) eqn:E; simpl; auto.
+    right. exists n. pose proof (int_exactb_exact n E) as X.
+    rewrite (conv_i64_exact n X). auto.
+  - rewrite spec_conv_not_int by congruence. destruct (conv_field TDbl v); simpl; auto.
+  - rewrite spec_conv_not_int by congruence. destruct (conv_field TStr v); simpl; auto.
+  - rewrite spec_conv_not_int by congruence. destruct (conv_field TBool v); simpl; auto.
+  - rewrite spec_conv_not_int by congruence. destruct (conv_field TUuid v); simpl; auto.
+Qed.
+
+Lemma is_int_field sch name f :
+  bytes_eqb name (s_id sch) = false -> find_field sch name = Some f ->
+  is_int sch name = match f_type f with TInt => true | _ => false end.
+Proof. intros E F. unfold is_int. rewrite E, F. reflexivity. Qed.
 
 Lemma val_rel st r name :
-  rows_agree st -> ints_exact_rows st -> In r (live_rows st) ->
+  rows_agree st -> In r (live_rows st) ->
   vrel (is_int (st_sch st) name) (col_val0 (st_sch st) r name) (spec_val (st_sch st) r name).
 Proof.
-  intros RA IE Hin. unfold is_int, col_val0, col_val, spec_val.
-  destruct (bytes_eqb name (s_id (st_sch st))); [reflexivity|].
-  destruct (find_field (st_sch st) name) as [f|] eqn:FF; [|reflexivity].
+  intros RA Hin. unfold col_val0, col_val, spec_val.
+  destruct (bytes_eqb name (s_id (st_sch st))) eqn:EI.
+  { unfold is_int. rewrite EI. reflexivity. }
+  destruct (find_field (st_sch st) name) as [f|] eqn:FF.
+  2:{ unfold is_int. rewrite EI, FF. reflexivity. }
+  rewrite (is_int_field _ _ _ EI FF).
   apply find_field_in in FF as [Fin Fname].
-  rewrite (RA r f Hin Fin). rewrite Fname.
+  pose proof (RA r f Hin Fin) as A. rewrite Fname in A.
   destruct (doc_field (l_doc r) name) as [v|] eqn:DF.
-  2:{ destruct (f_type f); simpl; auto. }
-  destruct (f_type f) eqn:T;
-    try (rewrite (spec_conv_not_int (s_strict (st_sch st))) by congruence; simpl; reflexivity).
-  (* INTEGER *)
-  destruct v as [| |n| | |]; try (simpl; auto; fail).
-  assert (X : int_exact n).
-  { eapply IE; eauto. rewrite Fname. exact DF. }
-  rewrite (conv_field_int_exact _ n X). simpl.
-  right. exists n. auto.
+  - pose proof (conv_rel (f_type f) v) as C. rewrite A in C.
+    destruct (spec_conv (f_type f) v); try contradiction. exact C.
+  - rewrite A. destruct (f_type f); simpl; auto.
 Qed.
 
 (* relation of the converted comparisons *)
@@ -208,28 +224,16 @@ Definition res_rel {A B} (R : A -> B -> Prop) (a : res A) (b : res B) : Prop :=
   end.
 
 Lemma conv_cmp_rel sch c :
-  (forall f n, bytes_eqb (c_field c) (s_id sch) = false -> find_field sch (c_field c) = Some f ->
-               f_type f = TInt -> c_val c = JNum n -> int_exact n) ->
-  res_rel (cc_rel sch) (conv_cmp_with (conv_field (s_strict sch)) sch c) (conv_cmp_with spec_conv sch c).
+  res_rel (cc_rel sch) (conv_cmp_with conv_field sch c) (conv_cmp_with spec_conv sch c).
 Proof.
-  intros HI. unfold conv_cmp_with, cc_rel, is_int.
+  unfold conv_cmp_with, cc_rel.
   destruct (bytes_eqb (c_field c) (s_id sch)) eqn:EI.
-  - destruct (conv_id (c_val c)); simpl; auto. rewrite EI. simpl. auto.
+  - destruct (conv_id (c_val c)); simpl; auto. unfold is_int. rewrite EI. simpl. auto.
   - destruct (find_field sch (c_field c)) as [f|] eqn:FF; simpl; auto.
-    destruct (f_type f) eqn:T.
-    + (* INTEGER *)
-      destruct (c_val c) as [| |n| | |] eqn:CV; try (simpl; auto; rewrite ?EI, ?FF, ?T; simpl; auto; fail).
-      assert (X : int_exact n) by (eapply HI; eauto).
-      rewrite (conv_field_int_exact _ n X). simpl. rewrite EI, FF, T. simpl.
-      repeat split; auto. right. exists n. auto.
-    + rewrite (spec_conv_not_int (s_strict sch)) by congruence.
-      destruct (conv_field (s_strict sch) TDbl (c_val c)); simpl; auto. rewrite EI, FF, T. simpl; auto.
-    + rewrite (spec_conv_not_int (s_strict sch)) by congruence.
-      destruct (conv_field (s_strict sch) TStr (c_val c)); simpl; auto. rewrite EI, FF, T. simpl; auto.
-    + rewrite (spec_conv_not_int (s_strict sch)) by congruence.
-      destruct (conv_field (s_strict sch) TBool (c_val c)); simpl; auto. rewrite EI, FF, T. simpl; auto.
-    + rewrite (spec_conv_not_int (s_strict sch)) by congruence.
-      destruct (conv_field (s_strict sch) TUuid (c_val c)); simpl; auto. rewrite EI, FF, T. simpl; auto.
+    pose proof (conv_rel (f_type f) (c_val c)) as C.
+    destruct (conv_field (f_type f) (c_val c)), (spec_conv (f_type f) (c_val c));
+      simpl in *; try contradiction; auto.
+    rewrite (is_int_field _ _ _ EI FF). auto.
 Qed.
 
 Lemma mapres_rel {A B C} (R : B -> C -> Prop) (f : A -> res B) (g : A -> res C) (l : list A) :
@@ -245,14 +249,13 @@ Proof.
 Qed.
 
 Lemma conv_groups_rel sch q :
-  ints_exact_query sch q ->
   res_rel (Forall2 (Forall2 (cc_rel sch)))
-          (conv_groups_with (conv_field (s_strict sch)) sch (q_groups q)) (conv_groups_with spec_conv sch (q_groups q)).
+          (conv_groups_with conv_field sch (q_groups q)) (conv_groups_with spec_conv sch (q_groups q)).
 Proof.
-  intros HI. unfold conv_groups_with. apply mapres_rel. intros g Hg.
+  unfold conv_groups_with. apply mapres_rel. intros g Hg.
   unfold conv_group_with. destruct g as [|c g']; simpl; auto.
-  apply (mapres_rel (cc_rel sch) (conv_cmp_with (conv_field (s_strict sch)) sch) (conv_cmp_with spec_conv sch) (c :: g')).
-  intros c0 Hc0. apply conv_cmp_rel. intros f n E FF T CV. eapply HI; eauto.
+  apply (mapres_rel (cc_rel sch) (conv_cmp_with conv_field sch) (conv_cmp_with spec_conv sch) (c :: g')).
+  intros c0 Hc0. apply conv_cmp_rel.
 Qed.
 
 Lemma forallb_rel {A B} (R : A -> B -> Prop) (p : A -> bool) (p' : B -> bool) l l' :
@@ -263,11 +266,11 @@ Lemma existsb_rel {A B} (R : A -> B -> Prop) (p : A -> bool) (p' : B -> bool) l 
 Proof. induction 1; simpl; intros H'; auto. rewrite (H' _ _ H), IHForall2; auto. Qed.
 
 Lemma eval_where_rel st gs gs' r :
-  rows_agree st -> ints_exact_rows st -> In r (live_rows st) ->
+  rows_agree st -> In r (live_rows st) ->
   Forall2 (Forall2 (cc_rel (st_sch st))) gs gs' ->
   eval_where (col_val0 (st_sch st)) gs r = eval_where (spec_val (st_sch st)) gs' r.
 Proof.
-  intros RA IE Hin F. unfold eval_where.
+  intros RA Hin F. unfold eval_where.
   destruct F as [|g g' gs gs' Hg F]; auto.
   apply (existsb_rel (Forall2 (cc_rel (st_sch st)))); [constructor; auto|].
   intros a b Hab. apply (forallb_rel (cc_rel (st_sch st))); auto.
@@ -277,11 +280,11 @@ Proof.
 Qed.
 
 Lemma ord_cmp_rel st ord a b :
-  rows_agree st -> ints_exact_rows st -> In a (live_rows st) -> In b (live_rows st) ->
+  rows_agree st -> In a (live_rows st) -> In b (live_rows st) ->
   ord_cmp (col_val0 (st_sch st)) ord a b = ord_cmp (spec_val (st_sch st)) ord a b.
 Proof.
-  intros RA IE Ha Hb. induction ord as [|[f d] ord IH]; simpl; auto.
-  rewrite (vrel_cmp (is_int (st_sch st) f) _ _ _ _ (val_rel st a f RA IE Ha) (val_rel st b f RA IE Hb)).
+  intros RA Ha Hb. induction ord as [|[f d] ord IH]; simpl; auto.
+  rewrite (vrel_cmp (is_int (st_sch st) f) _ _ _ _ (val_rel st a f RA Ha) (val_rel st b f RA Hb)).
   rewrite IH. reflexivity.
 Qed.
 
@@ -310,12 +313,11 @@ Proof.
 Qed.
 
 Theorem plain_is_spec st q :
-  rows_agree st -> ints_exact_rows st -> ints_exact_query (st_sch st) q ->
-  plain_matched st q = spec_matched st q.
+  rows_agree st -> plain_matched st q = spec_matched st q.
 Proof.
-  intros RA IE IQ. unfold plain_matched, spec_matched, conv_groups.
-  pose proof (conv_groups_rel (st_sch st) q IQ) as CR.
-  destruct (conv_groups_with (conv_field (s_strict (st_sch st))) (st_sch st) (q_groups q)) as [gs|e|],
+  intros RA. unfold plain_matched, spec_matched, conv_groups.
+  pose proof (conv_groups_rel (st_sch st) q) as CR.
+  destruct (conv_groups_with conv_field (st_sch st) (q_groups q)) as [gs|e|],
            (conv_groups_with spec_conv (st_sch st) (q_groups q)) as [gs'|e'|];
     simpl in CR; try contradiction; simpl; auto; try congruence.
   destruct (check_order (st_sch st) (q_order q)); simpl; auto.
@@ -325,14 +327,13 @@ Proof.
   { apply filter_ext_in. intros r Hr. apply eval_where_rel; auto. }
   rewrite EF. apply isort_ext. intros x y Hx Hy.
   apply filter_In in Hx as [Hx _]. apply filter_In in Hy as [Hy _].
-  rewrite (ord_cmp_rel st (q_order q) x y RA IE Hx Hy). reflexivity.
+  rewrite (ord_cmp_rel st (q_order q) x y RA Hx Hy). reflexivity.
 Qed.
 
-(* search_sound_and_complete, for rows that agree with their payloads and integral INTEGER values *)
+(* search_sound_and_complete, for rows that agree with their payloads *)
 Theorem search_partial st q off :
-  rows_agree st -> ints_exact_rows st -> ints_exact_query (st_sch st) q -> nz_safe st q ->
-  engine_search st q off = spec_search st q off.
+  rows_agree st -> nz_safe st q -> engine_search st q off = spec_search st q off.
 Proof.
-  intros RA IE IQ NZ. unfold engine_search, spec_search.
-  rewrite (engine_is_plain st q NZ), (plain_is_spec st q RA IE IQ). reflexivity.
+  intros RA NZ. unfold engine_search, spec_search.
+  rewrite (engine_is_plain st q NZ), (plain_is_spec st q RA). reflexivity.
 Qed.
